@@ -527,6 +527,7 @@ def run_store_program(prog):
     wmap = {"open": L.World.OPEN, "closed": L.World.CLOSED, "axiom": L.World.AXIOM}
     # what the harness knows independently of any model: asserted data and current world per formula
     asserted = {i: {} for i in kb.order}
+    exempt = {i: set() for i in kb.order}
     world = {i: tuple(Fr(float(x)) for x in kb.obj[i].world) for i in kb.order}
     bq = lambda b: [q(b[0]), q(b[1])]
 
@@ -575,14 +576,18 @@ def run_store_program(prog):
                         for g, v in entries:
                             if val_bounds(v) is not None:
                                 asserted[target][g] = val_bounds(v)
+                                exempt[target].discard(g)
                 else:
                     meta["judgements"].append({"kind": "add-foreign", "op": lines[-1], "res": res, "target": target})
             elif op[0] == "flush":
                 kb.model.flush()
                 lines.append("fflush"); out.append("ok")
-                for i in kb.order:          # flush() on a propositional formula stores UNKNOWN as its data
-                    if kb.obj[i].propositional:
-                        asserted[i] = {(): (ZERO, ONE)}
+                for i in kb.order:
+                    # flush() "sets all facts to UNKNOWN": what reset_bounds() returns to for the rows stored at this moment
+                    # is not fixed by the properties (the data they had, or UNKNOWN): they are exempt from the C14/C15
+                    # judgements until asserted again. The correspondence with the model pins the actual behaviour.
+                    exempt[i] |= set(kb.table(i)) if not kb.obj[i].propositional else {()}
+                    asserted[i] = {}
             elif op[0] == "resetb":
                 kb.model.reset_bounds()
                 lines.append("fresetb"); out.append("ok")
@@ -592,6 +597,7 @@ def run_store_program(prog):
                     t = kb.table(i)
                     meta["judgements"].append({"kind": "reset", "target": i, "world": bq(world[i]),
                                                "asserted": {gtxt(g): bq(b) for g, b in asserted[i].items()},
+                                               "exempt": sorted(gtxt(g) for g in exempt[i]),
                                                "table": {gtxt(g): bq(b) for g, b in t.items()}})
             elif op[0] == "get":
                 o = kb.obj[op[1]]
@@ -618,8 +624,10 @@ def run_store_program(prog):
                 kb.obj[op[1]].reset_world(wmap[w])
                 lo, hi = WORLDS[w]
                 world[op[1]] = (lo, hi)
-                if kb.obj[op[1]].propositional:
-                    asserted[op[1]] = {}          # the stored data of a propositional formula becomes the new default
+                # rows that were asserted before: whether their data survives reset_world is not fixed by the properties
+                # (exempt until asserted again); every never-asserted row must read the new default from now on
+                exempt[op[1]] |= set(asserted[op[1]])
+                asserted[op[1]] = {}
                 lines.append(f"fworld {op[1]} {q(lo)},{q(hi)}"); out.append("ok")
             elif op[0] == "infer":
                 steps, r = kb.model.infer(max_steps=op[1])
@@ -758,8 +766,8 @@ def run_c02(case):
                 G[(i, g)] = L.Not(G[(j, g)])
         elif cn in ("And", "Or", "Implies"):
             nv = o.num_unique_vars
-            act = {"type": acts[type(o.neuron).__name__], "alpha": float(o.neuron.alpha),
-                   "bias": float(o.neuron.bias), "weights": tuple(float(w) for w in o.neuron.weights.detach().tolist())}
+            act = {"type": acts[type(o.neuron).__name__], "alpha": float(o.neuron.alpha.detach() if hasattr(o.neuron.alpha, "detach") else o.neuron.alpha),
+                   "bias": float(o.neuron.bias.detach()), "weights": tuple(float(w) for w in o.neuron.weights.detach().tolist())}
             for g in itertools.product(range(nc), repeat=nv):
                 ops = []
                 for k, x in enumerate(o.operands):
@@ -778,33 +786,34 @@ def run_c02(case):
     model.add_data({k: v for k, v in data.items() if k in model})
     gsteps, _ = model.infer(max_steps=300)
     ground = {}
-    tainted = {}
-
-    def taint(o):
-        # an instance is tainted when it or anything below it is contradictory in the ground run: there the two engines
-        # legitimately arrest differently, so the instance is not compared
-        k = id(o)
-        if k not in tainted:
-            b = impl.bounds_of(o)
-            tainted[k] = b[0] > b[1] or any(taint(x) for x in o.operands)
-        return tainted[k]
-
-    users = {}
+    # An instance is compared only when nothing it is connected to (through operands or users, in any number of steps) is
+    # contradictory in the ground run. Inside such a connected component the two engines arrest differently and both
+    # legitimately: the propositional engine stops a connective when ANY operand is contradictory, the first-order one
+    # checks per row and (through `contradicting_bounds(stacked=True)`) only the first two operand columns, so a bound may
+    # be derived through a contradictory third operand in one engine and not in the other. The property speaks about what
+    # the ground theory implies; a contradictory component implies everything. Components without a contradiction are
+    # compared in full, which is where a leak between groundings shows.
+    adj = {}
     for o in G.values():
         for x in o.operands:
-            users.setdefault(id(x), []).append(o)
-
-    def taint_up(o, seen):
-        # ... or when something that USES it is contradictory (downward inference from a contradictory operator)
-        if id(o) in seen:
-            return False
-        seen.add(id(o))
+            adj.setdefault(id(o), set()).add(id(x))
+            adj.setdefault(id(x), set()).add(id(o))
+    tainted = set()
+    stack = []
+    for o in G.values():
         b = impl.bounds_of(o)
-        return b[0] > b[1] or any(taint_up(u, seen) for u in users.get(id(o), []))
-
+        if b[0] > b[1]:
+            stack.append(id(o))
+    while stack:
+        k = stack.pop()
+        if k in tainted:
+            continue
+        tainted.add(k)
+        stack.extend(adj.get(k, ()))
     for (i, g), o in G.items():
-        if o in model and not taint(o) and not taint_up(o, set()):
+        if o in model and id(o) not in tainted:
             ground[f"{i}:{gtxt(g)}"] = [q(x) for x in impl.bounds_of(o)]
+    rec["meta"]["ground_tainted"] = len(tainted)
     rec["meta"]["ground"] = ground
     rec["meta"]["ground_contra"] = bool(model.has_contradiction())
     rec["meta"]["ground_steps"] = gsteps
